@@ -4,6 +4,7 @@ package bus
 
 import (
 	"bytes"
+	"sync"
 	"sync/atomic"
 
 	"github.com/lugu/qiloop/bus/net"
@@ -264,4 +265,69 @@ func C11SubscriptionAfterLoss() {
 		sym.Assert(n == 0, "sub-after-loss/event-from-nowhere")
 	}
 	sym.Reach("sub-after-loss-done")
+}
+
+// C11BlockingDisconnectCallback: a disconnect callback that waits for the calls in flight to return
+// before it cleans up (registered before the calls, or between them): the loss of the connection
+// still ends every pending call with an error and tells every callback and subscription once —
+// nobody's notification waits behind somebody else's callback.
+func C11BlockingDisconnectCallback() {
+	s := newZZStream()
+	e := net.NewEndPoint(s)
+	c := NewClient(NewChannel(e, DefaultCap()))
+	const pending = 3
+	var wg sync.WaitGroup
+	var disconnects, late int32
+	callbackFirst := sym.Bool("callback-registered-before-the-calls")
+	blocking := func(err error) {
+		wg.Wait() // the workers using the connection have returned
+		atomic.AddInt32(&disconnects, 1)
+	}
+	if callbackFirst {
+		c.OnDisconnect(blocking)
+	}
+	res := make([]chan zzCallRes, pending)
+	for i := 0; i < pending; i++ {
+		res[i] = make(chan zzCallRes, 1)
+		wg.Add(1)
+		go func(i int) {
+			defer wg.Done()
+			p, err := c.Call(nil, 1, 1, uint32(100+i), []byte{byte(i)})
+			res[i] <- zzCallRes{p, err}
+		}(i)
+		sym.Quiesce()
+		if !callbackFirst && i == 0 {
+			c.OnDisconnect(blocking)
+		}
+	}
+	cancel, events, err := c.Subscribe(1, 1, 200)
+	sym.Assert(err == nil, "blocking-callback/subscribe")
+	c.OnDisconnect(func(err error) { atomic.AddInt32(&late, 1) })
+	if sym.Bool("local-close") {
+		e.Close()
+	} else {
+		s.peerClose()
+	}
+	sym.Quiesce()
+	for i := 0; i < pending; i++ {
+		select {
+		case r := <-res[i]:
+			sym.Assert(r.err != nil, "blocking-callback/pending-call-succeeded-without-reply")
+		default:
+			sym.Fail("blocking-callback/call-still-pending-after-the-loss")
+			return
+		}
+	}
+	sym.Assert(atomic.LoadInt32(&disconnects) == 1, "blocking-callback/callback-exactly-once")
+	sym.Assert(atomic.LoadInt32(&late) == 1, "blocking-callback/later-callback-exactly-once")
+	if err == nil {
+		select {
+		case _, ok := <-events:
+			sym.Assert(!ok, "blocking-callback/subscription-not-closed")
+		default:
+			sym.Fail("blocking-callback/subscription-not-closed")
+		}
+		cancel()
+	}
+	sym.Reach("blocking-callback-done")
 }
